@@ -116,9 +116,14 @@ def solver_oracle(args):
     L = 2
     T = float(k * dt)
     obs = [Observable("x", 0), Observable("z", 1)]
-    p = AnalogSimParams(obs, elapsed_time=T, dt=dt, order=order, sample_timesteps=sampling, solver=solver,
-                        show_progress=False, threshold=1e-14, num_traj=1)
     try:
+        if args.get("reuse"):
+            # history: the same Observable objects served an earlier run on the same grid with the other sampling flag
+            p0 = AnalogSimParams(obs, elapsed_time=T, dt=dt, order=order, sample_timesteps=not sampling, solver=solver,
+                                 show_progress=False, threshold=1e-14, num_traj=1)
+            simulator.run(MPS(L, state="zeros"), MPO.ising(L, 1.0, 0.8), p0, None, parallel=False)
+        p = AnalogSimParams(obs, elapsed_time=T, dt=dt, order=order, sample_timesteps=sampling, solver=solver,
+                            show_progress=False, threshold=1e-14, num_traj=1)
         simulator.run(MPS(L, state="zeros"), MPO.ising(L, 1.0, 0.8), p, None, parallel=False)
     except Exception as e:  # noqa: BLE001
         return f"simulator.run raised {type(e).__name__}: {e}"
@@ -129,7 +134,7 @@ def solver_oracle(args):
     for o, op in zip(obs, ops):
         res = np.real(np.atleast_1d(o.results))
         if len(res) != want_len:
-            return f"{solver}: result has {len(res)} entries, expected {want_len}"
+            return f"{solver}: result has {len(res)} entries, expected {want_len}" + (" (observables reused after a run with the other sampling flag)" if args.get("reuse") else "")
         idxs = range(want_len) if sampling else [0]
         for c in idxs:
             t = c * dt if sampling else T
@@ -178,11 +183,12 @@ def search(ctx):
         for sampling in (True, False):
             for (k, dt) in ((2, 0.1), (1, 0.1), (3, 0.1), (5, 0.05)):
                 plan.append(dict(k=k, dt=dt, solver=solver, order=order, sampling=sampling))
+            plan.append(dict(k=3, dt=0.1, solver=solver, order=order, sampling=sampling, reuse=True))
     if not ctx.quick:
         for _ in range(60):
             plan.append(dict(k=int(ctx.rng.integers(1, 12)), dt=float(ctx.rng.choice([0.1, 0.05, 0.02, 0.07])),
                              solver=str(ctx.rng.choice(["TJM", "MCWF", "Lindblad"])), order=int(ctx.rng.integers(1, 3)),
-                             sampling=bool(ctx.rng.random() < 0.5)))
+                             sampling=bool(ctx.rng.random() < 0.5), reuse=bool(ctx.rng.random() < 0.3)))
     for a in plan:
         try:
             with common.time_limit(120):
